@@ -531,6 +531,22 @@ HEIGHT_FNS = (r"draw_target::LineType::wrapped_height", r"draw_target::visual_li
               r"draw_target::DrawState::visual_line_count")
 
 
+class AccStore:
+    """An accumulation spelled `let new = running + rows; ..; running = new;`: the site is the store into the running
+    count (that is where the row is counted), the value is the sum computed earlier (possibly also used by the height test)."""
+
+    def __init__(self, body, call, store_bb, line, running):
+        self.body, self.call, self.bb, self._line, self.running = body, call, store_bb, line, running
+        self.args = call.args
+        self.path, self.generic, self.callee, self.dest = call.path, call.generic, call.callee, call.dest
+
+    def loc(self):
+        return "%s:%d" % (self.body.file, self._line)
+
+    def matches(self, *pats):
+        return self.call.matches(*pats)
+
+
 def _accumulations(b, slices):
     acc = []
     for sl in slices:
@@ -538,8 +554,22 @@ def _accumulations(b, slices):
             if c.matches(*VL_ADDITIVE) and b.in_loop(c.bb):
                 # the per-line addend must come from wrapped_height of the current line
                 asl = b.slice_args(c, [1])
-                if asl.has_call(r"draw_target::LineType::wrapped_height") and c not in acc:
-                    acc.append(c)
+                if asl.has_call(r"draw_target::LineType::wrapped_height") and not any(getattr(x, "call", x) is c or x is c for x in acc):
+                    stores = []
+                    if K.meth(c.generic) == "add" and not c.dest["p"]:
+                        # the running count is the loop-carried local the sum is later stored into
+                        src = operand_local(c.args[0])
+                        for _ in range(3):
+                            ds = [d for d in b.defs().get(src, ()) if d["kind"] == "assign"] if src is not None else []
+                            if len(ds) == 1 and ds[0]["rv"]["k"] == "use" and operand_local(ds[0]["rv"]["op"]) is not None and not ds[0]["rv"]["op"]["place"]["p"] \
+                                    and len(b.defs().get(src, ())) == 1:
+                                src = operand_local(ds[0]["rv"]["op"])
+                        for i, j, s_ in b.assigns():
+                            if s_["lhs"]["l"] == src and not s_["lhs"]["p"] and s_["rv"]["k"] == "use" and b.in_loop(i) and i in (b.reach_after(c.bb) | {c.bb}):
+                                vs = b.slice_rv(i, s_, through_calls=False)
+                                if c.dest["l"] in vs.locals and i != c.bb:
+                                    stores.append(AccStore(b, c, i, s_.get("line", 0), src))
+                    acc.extend(stores or [c])
     return acc
 
 
@@ -615,6 +645,8 @@ def height_guard_edges(b, acc=()):
     for c in acc:
         for tl, tp in b.ref_origins().get(operand_local(c.args[0]), ()):
             acc_locals.add(tl)
+        if getattr(c, "running", None) is not None:
+            acc_locals.add(c.running)
     for sb, t in b.switches():
         if t["op"]["k"] not in ("copy", "move"):
             continue
@@ -695,7 +727,7 @@ def rule_height_guard(ctx, crate, rule="R-HEIGHT-GUARD"):
         run_ok = False
         for a in acc:
             refs = b.ref_origins().get(K.operand_local(a.args[0]), [])
-            if any(tl in sl.locals for tl, tp in refs):
+            if any(tl in sl.locals for tl, tp in refs) or getattr(a, "running", None) in sl.locals:
                 run_ok = True
         ctx.check(run_ok, rule, "guard-uses-running-height", b.name, "%s:%d" % (b.file, t.get("line", 0)),
                   "the comparison reads the running painted height",
@@ -1076,7 +1108,7 @@ def rule_shift_full_frame(ctx, crate, rule="R-SHIFT-FULL-FRAME"):
         return
     p = count_param(b)
     n = 0
-    for vs, reg, sb, pl in K.variant_regions(b, crate, "multi::MultiProgressAlignment"):
+    for vs, reg in K.variant_only_regions(b, crate, "multi::MultiProgressAlignment"):
         if vs != {"Bottom"}:
             continue
         # comparisons / subtractions in the Bottom region involving the previous row count
@@ -1122,7 +1154,7 @@ def rule_counted_rows_adjacent(ctx, crate, rule="R-COUNTED-ROWS-ADJACENT"):
         ctx.lost(rule, cfg, "no per-line paint call found")
         return
     n = 0
-    for vs, reg, sb, pl in K.variant_regions(b, crate, "multi::MultiProgressAlignment"):
+    for vs, reg in K.variant_only_regions(b, crate, "multi::MultiProgressAlignment"):
         pads = [c for c in tl_calls(b, "write_line", "write_str") if c.bb in reg]
         if not pads:
             continue
